@@ -6,6 +6,7 @@
 //! FIT + the generous run).
 pub mod ops;
 pub mod ops2;
+pub mod ops3;
 
 use crate::driver::{Acc, CheckImpl, Tier, Viol, announce};
 use crate::fhe::{BACKENDS, EvalSpec, PrepSpec, RunOut, RunResult, Window, WindowMode, backend};
